@@ -34,6 +34,11 @@ def res_entry(rid):
     return f"{ch}:{num}{ic.strip()}"
 
 
+ION_SINGLES = {"ionpair-3SGB": [("I", 11, " "), ("I", 13, " "), ("E", 57, " "), ("E", 102, " ")],
+               "ionpair-1FTJ": [("A", 42, " "), ("A", 46, " ")],
+               "ionpair-4DFR": [("B", 139, " "), ("B", 141, " "), ("A", 27, " "), ("B", 27, " ")]}
+
+
 def fragments(ctx):
     out = []
     a = C.chain_lines("1HPX", "A", 20, 7)
@@ -92,6 +97,19 @@ def fragments(ctx):
     # a disulfide bridge (CYS E42 - CYS E58 of 3SGB): a bridged cysteine does not titrate, listed or not
     ss = C.chain_lines("3SGB", "E", 12, 4) + [C.TER] + C.rename_chain(C.chain_lines("3SGB", "E", 32, 4), "E", "F") + [C.TER]
     out.append(("frag-3SGB-disulfide", ss))
+    # iterative acid-base pairs that are hydrogen-bonded (TYR 11 - LYS 13 of 3SGB I, GLU 42 - HIS 46 of 1FTJ, GLU 139 -
+    # HIS 141 of 4DFR B): listing one member only, the other one still has to act as its partner (IonPairKept)
+    def by_number(src, chain, lo, hi):
+        return [ln for ln in C.chain_lines(src, chain) if lo <= int(ln[22:26]) <= hi]
+    out.append(("ionpair-3SGB-I7-18", by_number("3SGB", "I", 7, 18) + [C.TER]))
+    out.append(("ionpair-1FTJ-A39-49", by_number("1FTJ-Chain-A", "A", 39, 49) + [C.TER]))
+    # ... and in their whole proteins, where the pair also has a Coulomb interaction when both titrate (in a fragment the
+    # pair is too exposed for one); only the members of the pairs are listed, one at a time (ION_SINGLES)
+    out.append(("ionpair-3SGB", [ln for ln in C.body(C.test_pdb_text("3SGB")) if C.is_atom(ln) or ln.startswith("TER")]))
+    if ctx.thorough():
+        out.append(("ionpair-4DFR-B136-144", [ln for ln in by_number("4DFR", "B", 136, 144) if ln[16] in " A"] + [C.TER]))
+        out.append(("ionpair-1FTJ", [ln for ln in C.body(C.test_pdb_text("1FTJ-Chain-A")) if C.is_atom(ln) or ln.startswith("TER")]))
+        out.append(("ionpair-4DFR", [ln for ln in C.body(C.test_pdb_text("4DFR")) if C.is_atom(ln) or ln.startswith("TER")]))
     if ctx.thorough():
         out.append(("frag-2chains", C.chain_lines("1HPX", "A", 24, 4) + [C.TER] + C.chain_lines("1HPX", "B", 24, 4) + [C.TER]))
     return out
@@ -133,6 +151,7 @@ def run(ctx):
     rng = random.Random(ctx.seed)
     cases = []
     rels = []
+    npairs_ion = 0
     # pairs scored non-iteratively ('N' in the working tree's interaction matrix) always list each other when they are
     # hydrogen-bonded; for iterative pairs the listing depends on the computed pKa values and may legitimately change
     from propka.parameters import Parameters
@@ -140,6 +159,41 @@ def run(ctx):
     with runner.quiet():
         _pm = read_parameter_file("propka.cfg", Parameters()).interaction_matrix
     non_iterative = lambda t1, t2: _pm.get_value(t1, t2) == "N"  # noqa
+    with runner.quiet():
+        _par = read_parameter_file("propka.cfg", Parameters())
+    _exc = [getattr(_par, k_) for k_ in ("COO_HIS_exception", "OCO_HIS_exception", "CYS_HIS_exception", "CYS_CYS_exception") if hasattr(_par, k_)]
+
+    def ion_pair(g, h, value):
+        # an iterative pair of opposite charges whose hydrogen-bond value in the unrestricted run is not an exception value
+        return (_pm.get_value(g.type, h.type) == "I" and g.charge * h.charge < 0 and abs(value) > 1e-6
+                and not any(abs(abs(value) - e_) < 1e-6 for e_ in _exc))
+    import logging as _logging
+
+    class _Conv(_logging.Handler):
+        def __init__(self):
+            super().__init__(level=_logging.INFO)
+            self.hit = 0
+
+        def emit(self, record):
+            try:
+                if "did not converge" in record.getMessage():
+                    self.hit = 1
+            except Exception:  # noqa
+                pass
+
+    def run_watching_convergence(text_, opts_):
+        lg = _logging.getLogger("propka.iterative")
+        h_ = _Conv()
+        old_level, old_prop = lg.level, lg.propagate
+        lg.addHandler(h_)
+        lg.setLevel(_logging.INFO)      # (the root logger is at WARNING during harness runs; its handler ignores INFO)
+        try:
+            r_ = runner.run(text_, opts_)
+        finally:
+            lg.removeHandler(h_)
+            lg.setLevel(old_level)
+            lg.propagate = old_prop
+        return r_, h_.hit
     for name, lines in fragments(ctx):
         text = C.join(lines)
         ids = []
@@ -151,12 +205,14 @@ def run(ctx):
         if base.exc is not None:
             ctx.violation(f"run:exception:{name}", repr(base.exc), {"pdb": text})
             continue
-        if len(ids) <= 10:
+        if name in ION_SINGLES:
+            subsets = [(r,) for r in ION_SINGLES[name] if r in ids]
+        elif len(ids) <= 10:
             subsets = [s for n in range(0, len(ids) + 1) for s in itertools.combinations(ids, n)]
             if not ctx.thorough():
                 subsets = [s for s in subsets if len(s) in (1, len(ids) - 1, len(ids))] + rng.sample(subsets, 12)
         else:
-            subsets = [tuple(ids)] + [(r,) for r in ids[:: 1 if ctx.thorough() else 3]]
+            subsets = [tuple(ids)] + [(r,) for r in ids[:: 1 if (ctx.thorough() or name.startswith("ionpair-")) else 3]]
             subsets += [tuple(r for r in ids if r != x) for x in ids[::7]]
             for _ in range(60 if ctx.thorough() else 10):
                 subsets.append(tuple(sorted(rng.sample(ids, rng.randrange(2, len(ids))), key=ids.index)))
@@ -168,7 +224,7 @@ def run(ctx):
             lst = ",".join(res_entry(r) for r in sub)
             opts = ["-i", lst]
             cases.append((f"{name} -i {lst}", text, opts))
-            ri = runner.run(text, ["-q"] + opts)
+            ri, noconv = run_watching_convergence(text, ["-q"] + opts)
             ctx.count()
             meta = {"input": name, "list": lst, "pdb": text}
             if ri.exc is not None:
@@ -176,7 +232,9 @@ def run(ctx):
                 continue
             ctx.nontriv((name, lst))
             kind = "SameAll" if len(sub) == len(ids) else "EnvKept"
-            rels.append(relations.relate(kind, base, text, ri, text, present=True, sc_filter=non_iterative, meta=dict(meta, what=kind)))
+            rels.append(relations.relate(kind, base, text, ri, text, present=True, sc_filter=non_iterative, meta=dict(meta, what=kind),
+                                         ion_filter=ion_pair, conv_b=0 if noconv else 1))
+            npairs_ion += len(rels[-1]["ion"])
             if len(sub) <= 2:
                 lst2 = lst + ",Z:999,A:998B"
                 ru = runner.run(text, ["-q", "-i", lst2])
@@ -193,7 +251,8 @@ def run(ctx):
         for rec, m in lst[:5]:
             ctx.violation(f"titrate-only:census:{inv}:{m['input'].split(' -i ')[0]}", f"{inv} violated on {m}",
                           {"pdb": texts[m["input"]][1], "optargs": m["optargs"]})
-    rv = relations.validate(ctx, rels, ["SameConfs", "SameAll", "EnvKept", "PartnersKept"], "titrate-only vs no option")
+    ctx.extra["iterative_acid_base_pairs_with_one_member_listed"] = npairs_ion
+    rv = relations.validate(ctx, rels, ["SameConfs", "SameAll", "EnvKept", "PartnersKept", "IonPairKept"], "titrate-only vs no option")
     seen = set()
     for inv, lst in sorted(rv.items()):
         for rel in lst:
@@ -202,7 +261,11 @@ def run(ctx):
             if key in seen:
                 continue
             seen.add(key)
-            ctx.violation(key, f"-i {m['list']} on {m['input']} ({m['what']}): {relations.diff_summary(rel)}",
+            detail = relations.diff_summary(rel)
+            if inv == "IonPairKept":
+                detail = ["hydrogen-bonded acid-base pair no longer joined although acid pKa %.2f - base pKa %.2f < 2 x %.2f"
+                          % (p_[1] / 1e6, p_[2] / 1e6, p_[3] / 1e6) for p_ in rel["ion"] if p_[0] == 0 and p_[1] - p_[2] < 2 * p_[3] - 2000]
+            ctx.violation(key, f"-i {m['list']} on {m['input']} ({m['what']}): {detail}",
                           {"pdb": m["pdb"], "optargs": ["-i", m["list"]]})
     if rels:
         ctx.sample({"input": rels[0]["meta"]["input"], "list": rels[0]["meta"]["list"]})
